@@ -34,6 +34,7 @@ type Config struct {
 	Gen        GenCfg    `json:"gen"`
 	Faults     bool      `json:"faults"`
 	MaxFault   int       `json:"max_fault"` // max fault positions per shape (0 = all)
+	Audit      bool      `json:"audit"`     // orphan audit from a fresh process at the end of every history
 	Child      int       `json:"child"`     // sweep: every n-th position also probes from a child process (0 = never)
 	Probe      *ProbeCfg `json:"probe,omitempty"`
 	Program    *Program  `json:"program,omitempty"` // replay: the program to run sequentially
@@ -111,6 +112,9 @@ func runSeq(cfg Config) {
 				childObserve(r, folder, fmt.Sprintf("c%d", ti+1), p.Stores)
 			}
 		}
+		if cfg.Audit {
+			childAudit(r, folder, p.Stores)
+		}
 		tf.Write(fmt.Sprintf("p%d", i), r.Rec.Take(), map[string]any{"program": p, "folder": folder})
 		bf.Write(fmt.Sprintf("p%d", i), env.Hub.Take(), map[string]any{"program": p})
 		if os.Getenv("VERIF_KEEP_DATA") == "" {
@@ -136,6 +140,9 @@ func runReplay(cfg Config) {
 			break
 		}
 		r.Observe(ctx, &p)
+	}
+	if cfg.Audit {
+		childAudit(r, folder, p.Stores)
 	}
 	tf.Write("replay", r.Rec.Take(), map[string]any{"program": p})
 	os.RemoveAll(folder)
